@@ -73,8 +73,11 @@ Classify(pos) ==
   IF sc.kind[n] = "link" /\ sc.follow THEN
      IF sc.target[n] = 0 THEN [kind |-> "err", err |-> "io"]                     \* dangling
      ELSE IF IsDirNode(sc.target[n]) THEN
-        (* a followed link that re-enters a directory on the way from the root is a loop *)
-        IF \E i \in 1..(Len(pos) - 1) : Resolve(pos[i]) = sc.target[n]
+        (* walkdir opens the target of a followed link for its loop check: an unreadable target is *)
+        (* an error item in place of the entry; a followed link that re-enters a directory on the  *)
+        (* way from the root is a loop                                                             *)
+        IF ~sc.readable[sc.target[n]] THEN [kind |-> "err", err |-> "io"]
+        ELSE IF \E i \in 1..(Len(pos) - 1) : Resolve(pos[i]) = sc.target[n]
         THEN [kind |-> "err", err |-> "loop"]
         ELSE [kind |-> "dir", err |-> "none"]
      ELSE [kind |-> "file", err |-> "none"]
